@@ -60,6 +60,44 @@ pub fn plans() -> Vec<Plan> {
             ],
         },
         Plan {
+            prop: "C03",
+            engine: "world",
+            level: "exploration",
+            quick_runs: 20_000,
+            thorough_runs: 600_000,
+            rule: "one run = one faulty module (each stand-alone fault kind of the pool, incl. every name-clash shape) with up to 8 accompanying declarations, optionally one that reuses the faulty declaration's name; variants: the faulty file alone (reference), the company alone (reference for 'company is valid'), and 6 (quick) / 12 (thorough) compositions chosen by the scheduler: faulty file among 0-4 accompanying files or faulty declarations placed inside shared files, argv list/directory/mixture, readdir permutation, hash seed, cli::check or Project API. distinct = distinct trace JSON; non-trivial = the alone-run fails (or the world is a name clash), i.e. the metamorphic oracle applied.",
+            assumptions: &[
+                "the analyzer's verdict on the faulty file alone is the reference; worlds whose faulty file does not fail alone are discarded (counted)",
+                "codes P0012, P0021, P0022 (undeclared ...) and the set-level P0030 count as curable by company",
+                "for name clashes only failure is demanded, not a particular code; with name reuse the analyzer may stop at the clash, so re-reporting of the original code is not demanded there",
+            ],
+        },
+        Plan {
+            prop: "C13",
+            engine: "world",
+            level: "fault_enumeration",
+            quick_runs: 12_000,
+            thorough_runs: 500_000,
+            rule: "one run = one generated file set (valid or single-fault world, 1-3 files) on the simulated disk, executed as: check <dir>; check <files in 1-3 shuffled orders>; a mixture (same file twice / file plus its directory); echo and tokenize; and 3 (quick) / 6 (thorough) fault-injecting executions, each with one static fault (missing path, dangling symlink, symlink loop, empty directory, sub-directory, symlink to file, missing directory, no arguments, dotted path) or one dynamic storage fault (vanish, file<->dir, rewrite, truncate, append, dangling symlink) placed at a random fs-point of that execution. distinct = distinct trace JSON; non-trivial = at least 2 executions of a non-empty world.",
+            assumptions: &[
+                "exit status = the Result returned by the entry function (main returns it unchanged)",
+                "'a coded diagnostic reached the terminal' = it was handed to the renderer and codespan did not refuse it (emit.failed probe)",
+                "under a dynamic fault only the internal agreement clauses are demanded, not a particular verdict",
+            ],
+        },
+        Plan {
+            prop: "C14",
+            engine: "world",
+            level: "fault_enumeration",
+            quick_runs: 1024 + 11_000,
+            thorough_runs: 1024 + 400_000,
+            rule: "runs 0..1023 sweep every byte value 0x00-0xFF at four positions (inside a string literal, inside a comment, between tokens, inside an identifier) through check, tokenize, echo and the Project API (exhaustive part). The remaining runs draw a generated world decorated with non-ASCII characters in comments and string literals and either (3/5) store it three times under independently drawn encodings (UTF-8, UTF-8+BOM, UTF-16LE+BOM, UTF-16BE+BOM, Windows-1252) next to a plain UTF-8 reference (twin oracle: verdict, codes, line/column), or (2/5) corrupt the stored bytes of one file (bit flip, truncation anywhere / inside the BOM, garbage prefix/suffix, random binary, concurrent rewrite or truncation at an fs-point) and demand a Result with all labels inside the decoded text on char boundaries. distinct = distinct trace JSON; non-trivial = at least 2 executions.",
+            assumptions: &[
+                "texts stored as Windows-1252 are restricted to its repertoire; the case where the Windows-1252 bytes are also valid UTF-8 is inherently ambiguous and skipped",
+                "twin positions are compared only when both runs saw a decoded text of the generated length",
+            ],
+        },
+        Plan {
             prop: "C12",
             engine: "lsp",
             level: "fault_enumeration",
@@ -120,7 +158,7 @@ pub fn run_seed(seed: u64, prop: &str, r: u64) -> u64 {
 pub fn generate(prop: &str, tier_thorough: bool, r: u64, seed: u64) -> Trace {
     let mut rng = Rng::new(run_seed(seed, prop, r));
     match plan_for(prop).map(|p| p.engine) {
-        Some("world") => Trace::World(crate::world_oracles::generate(prop, &mut rng, tier_thorough)),
+        Some("world") => Trace::World(crate::world_oracles::generate(prop, &mut rng, tier_thorough, r)),
         Some("lsp") => Trace::Lsp(crate::lsp_oracles::generate(prop, &mut rng, tier_thorough, r)),
         _ => panic!("no generator for {prop}"),
     }
